@@ -68,7 +68,12 @@ func ExtractTypeNameMap(v interface{}) (map[string]reflect.Type, map[string]stri
 		nameMap[name] = name
 
 		if v.CanInterface() {
-			if n, ok := v.Interface().(CodecNamable); ok {
+			n, ok := v.Interface().(CodecNamable)
+			if !ok {
+				// the name may be declared on the pointer receiver
+				n, ok = reflect.New(typ).Interface().(CodecNamable)
+			}
+			if ok {
 				nameMap[name] = n.HessianCodecName()
 				typMap[n.HessianCodecName()] = typ
 			}
